@@ -71,14 +71,32 @@ LEMMAS = {
                   'pi = c / sum c maximises sum_k c_k log pi_k on the simplex   (all K, N)',
         assumptions=['each component update does not decrease its part of the expected complete-data log-likelihood '
                      '(ML estimators in closed form, cACG / Watson fixed-point steps): cited, not machine checked']),
+    'oracle': dict(
+        file='lean/Oracle.lean', theorems=['perm_max_exists', 'euclidean_restores', 'multiply_restores', 'cos_restores', 'unique_maximiser'],
+        statement='estimate rows e_k = r_{pi k} (a permutation of the reference rows), score S[k, j] = sim(r_k, e_j), sigma ANY maximiser of '
+                  'sum_k S[k, sigma k] over all permutations  =>  e_{sigma k} = r_k for every k, for sim = negative Euclidean distance, inner '
+                  'product, cosine (non-zero, pairwise non-parallel rows); a maximiser exists; for pairwise distinct rows it is pi^-1   (all K, T)',
+        assumptions=['composition by instantiation: the per-shape obligations (score matrix = the named similarity, the optimal assignment attains '
+                     'the maximum over all permutations, apply_mapping indexes rows by the mapping) provide the hypotheses of the Lean theorems']),
+    'beam': dict(
+        file='lean/Beam.lean', theorems=['condition_covariance_trace', 'condition_covariance_posSemidef', 'condition_covariance_isHermitian',
+                                         'lcmv_constraints', 'mvdr_constraint', 'quad_smul', 'rayleigh_scale_invariant', 'souden_rank_one',
+                                         'souden_is_scaled_mvdr'],
+        statement='for every number of sensors D and constraints K: tr((Phi + g tr(Phi)/D I)/(1+g)) = tr Phi and PSD / Hermitian are preserved (g >= 0); '
+                  'A^H w = r for w = Phi^-1 A (A^H Phi^-1 A)^-1 r; w = Phi^-1 a / (a^H Phi^-1 a) satisfies a^H w = 1 and Phi w = a / (a^H Phi^-1 a); '
+                  'the Rayleigh quotient of c w equals that of w (c != 0); for Phi_xx = s a a^H: Phi_nn^-1 Phi_xx u / tr(Phi_nn^-1 Phi_xx) = '
+                  '(a^H u / a^H Phi_nn^-1 a) Phi_nn^-1 a'),
     'logdet': dict(
         file='lean/LogDet.lean', theorems=['det_cholesky', 'log_det_cholesky'],
         statement='L lower triangular with positive diagonal  =>  log det(L L^T) = 2 sum_i log L_ii   (all dimensions)'),
 }
 
 
-def lemma_instance(prop, which, func):
-    spec = LEMMAS[which]
+def lemma_instance(prop, which, func, theorems=None):
+    spec = dict(LEMMAS[which])
+    if theorems is not None:
+        assert set(theorems) <= set(spec['theorems']), theorems
+        spec['theorems'] = list(theorems)
     return Instance(prop, func, 'lean-lemma-%s' % which, None, None, None, mode='lemma', lemma=spec, crosscheck=False, frame=False,
                     tags=('lemma',))
 
